@@ -131,9 +131,28 @@ class Run:
     __slots__ = ("mol", "rec", "text", "logs", "exc", "exc_type", "wall")
 
 
+def _single_with_hook(filename, optargs, stream, write_pka, hook):
+    """propka.run.single, step by step through the public building blocks, with `hook(options)` applied to
+    the Options object before the molecule is built (API users set options attributes directly)."""
+    from propka.lib import loadOptions
+    from propka.input import read_parameter_file, read_molecule_file
+    from propka.parameters import Parameters
+    from propka.molecular_container import MolecularContainer
+    options = loadOptions(tuple(optargs) + (filename,))
+    hook(options)
+    parameters = read_parameter_file(options.parameters, Parameters())
+    options.filenames = [filename]
+    mol = MolecularContainer(parameters, options)
+    mol = read_molecule_file(filename, mol, stream=stream)
+    mol.calculate_pka()
+    if write_pka:
+        mol.write_pka()
+    return mol
+
+
 def run_single(text, optargs=(), name="case.pdb", as_path=False, write_pka=True,
                with_atoms=False, keep_mol=False, log_level=logging.WARNING,
-               debug_iterative=False, profiles=False, workdir=None):
+               debug_iterative=False, profiles=False, workdir=None, options_hook=None):
     """Execute propka.run.single on PDB text in a private directory; never raises."""
     import time
     import propka.run
@@ -145,7 +164,7 @@ def run_single(text, optargs=(), name="case.pdb", as_path=False, write_pka=True,
     t0 = time.time()
     cwd = os.getcwd()
     tmp = workdir or tempfile.mkdtemp(prefix="vpobs-")
-    if not as_path and name == "case.pdb" and os.environ.get("VERIF_AMBIENT", "1") != "0":
+    if not as_path and options_hook is None and name == "case.pdb" and os.environ.get("VERIF_AMBIENT", "1") != "0":
         # ambient variation: every fourth input (decided by its content, so a replay repeats it) is
         # handed over as a file on disk instead of a text stream - the two doors must be equivalent
         import zlib
@@ -159,6 +178,8 @@ def run_single(text, optargs=(), name="case.pdb", as_path=False, write_pka=True,
                         fh.write(text)
                     mol = propka.run.single(os.path.join(tmp, name), tuple(optargs),
                                             write_pka=write_pka)
+                elif options_hook is not None:
+                    mol = _single_with_hook(name, tuple(optargs), io.StringIO(text), write_pka, options_hook)
                 else:
                     mol = propka.run.single(name, tuple(optargs), stream=io.StringIO(text),
                                             write_pka=write_pka)
@@ -418,7 +439,24 @@ def compare_groups(ga, gb, keymap=None, tol=FLOAT_TOL, skip=(), what=GROUP_FLOAT
             elif (k in da) != (k in db):
                 # a listed determinant of value 0.00 is still a row of the output
                 diffs.append(("det-listed", k, da.get(k), db.get(k)))
+        # every determinant is a row of the output: the same value split over two rows is a difference
+        na, nb = det_rows(ga), det_rows(gb, keymap)
+        for k in set(na) | set(nb):
+            if na.get(k, 0) != nb.get(k, 0) and k in da and k in db:
+                diffs.append(("det-rows", k, na.get(k, 0), nb.get(k, 0)))
     return diffs
+
+
+def det_rows(g, keymap=None):
+    """Number of determinant entries per (type, partner key)."""
+    out = {}
+    for t, lst in g["det"].items():
+        for d in lst:
+            k = d[0]
+            if keymap is not None:
+                k = keymap(k)
+            out[(t, tuple(k))] = out.get((t, tuple(k)), 0) + 1
+    return out
 
 
 def index_groups(conf_rec, keyf=None):
